@@ -5,9 +5,9 @@
 (* the state identity by a VIEW.                                                     *)
 EXTENDS GitRepo, Json, SequencesExt
 CONSTANTS MaxOps, Emit, NTags, Rewrite   \* Rewrite: also reset --hard / commit --amend / tag -f
-\* tag names: v1.0.0 (both formats), 1.0.0a1 (PEP 440 only), latest (neither), v2.0.0-rc.1 (SemVer only),
-\* 1.0.0 (equal to v1.0.0), v1.1.0
-TagPool == << <<118,49,46,48,46,48>>, <<49,46,48,46,48,97,49>>, <<108,97,116,101,115,116>>,
+\* tag names: v1.0.0 (both formats), 1.0.0a1 (PEP 440 only), main (no version, and the name of a branch:
+\* the short name is then ambiguous for git), v2.0.0-rc.1 (SemVer only), 1.0.0 (equal to v1.0.0), v1.1.0
+TagPool == << <<118,49,46,48,46,48>>, <<49,46,48,46,48,97,49>>, <<109,97,105,110>>,
               <<118,50,46,48,46,48,45,114,99,46,49>>, <<49,46,48,46,48>>, <<118,49,46,49,46,48>> >>
 MCTagNames == { TagPool[i] : i \in 1..NTags }
 VARIABLE hist
